@@ -81,7 +81,14 @@ def h_refine_helper(cx, p, kv, knot_list=None, n_add=0, density=1, dim=2):
             cx.assume(cx.any_of([x - y > F(1, 1000), y - x > F(1, 1000), x == y]))
     if adds:
         kw['add_knot_list'] = list(adds)
-    new_P, new_kv = H.knot_refinement(p, list(K), [list(q) for q in P], **kw)
+    arg_P = [list(q) for q in P]
+    arg_K = list(K)
+    new_P, new_kv = H.knot_refinement(p, arg_K, arg_P, **kw)
+    # the helper must not modify its inputs (callers pass the object's own lists)
+    cx.eq('input_ctrlpts_unmodified', arg_P, P)
+    cx.eq('input_knots_unmodified', arg_K, K)
+    second = H.knot_refinement(p, list(K), [list(q) for q in P], **{k_: (list(v_) if isinstance(v_, list) else v_) for k_, v_ in kw.items()})
+    cx.eq('repeatable', [second[0], second[1]], [new_P, new_kv])
     # expected knot vector: every knot of the (bisected) refinement list raised to multiplicity p
     lst = []
     for x in refined + adds:
@@ -166,6 +173,10 @@ def instances(tier):
         out.append(inst('helper p%d knot_list[1/2,3/4]' % p, h_refine_helper, p=p, kv=kv, knot_list=[F(1, 2), F(3, 4)]))
         out.append(inst('helper p%d knot_list[1/4,1/2] d2' % p, h_refine_helper, p=p, kv=kv, knot_list=[F(1, 4), F(1, 2)], density=2))
         out.append(inst('helper p%d dom[2,5] knot_list' % p, h_refine_helper, p=p, kv=fam.pattern(p, (1,), 2, 5), knot_list=[F(3), F(4)]))
+        if p >= 2:
+            out.append(inst('helper p%d knot_list whole domain' % p, h_refine_helper, p=p, kv=kv, knot_list=[F(0), F(1)]))
+        out.append(inst('helper p%d knot_list from domain start' % p, h_refine_helper, p=p, kv=kv, knot_list=[F(0), F(4, 5)]))
+        out.append(inst('helper p%d knot_list from full-multiplicity knot' % p, h_refine_helper, p=p, kv=fam.pattern(p, (p, 1, 1)), knot_list=[F(1, 4), F(1)]))
         out.append(inst('helper p%d knot_list in last span' % p, h_refine_helper, p=p, kv=kv, knot_list=[F(4, 5), F(9, 10)]))
         out.append(inst('helper p%d knot_list in first span' % p, h_refine_helper, p=p, kv=kv, knot_list=[F(1, 10), F(1, 5)]))
         out.append(inst('helper p%d single knot in last span' % p, h_refine_helper, p=p, kv=kv, knot_list=[F(7, 8), F(7, 8)], density=1))
